@@ -584,7 +584,8 @@ func reportViolation(p *PropDef, seed uint64, tier string, wv WorkerViol) string
 	rf := &ReplayFile{Property: p.ID, Seed: seed, Tier: tier, Index: wv.Index, Oracle: wv.V.Oracle, Key: wv.V.Key, Detail: wv.V.Detail}
 	if p.ID == "C18" && wv.V.Oracle != "hang" && wv.V.Oracle != "fatal" && wv.V.Oracle != "data_race" && !yieldBuild && os.Getenv("IKESIM_YIELD_BIN") != "" {
 		// serialized-mode findings reproduce only in the instrumented binary: confirm and shrink there
-		cmd := exec.Command(os.Getenv("IKESIM_YIELD_BIN"), "report", p.ID, tier, strconv.FormatUint(seed, 10), strconv.Itoa(wv.Index), wv.V.Oracle, wv.V.Key, path)
+		cmd := exec.Command(os.Getenv("IKESIM_YIELD_BIN"), "report", p.ID, tier, strconv.FormatUint(seed, 10), strconv.Itoa(wv.Index), wv.V.Oracle, wv.V.Key, path,
+			strconv.Itoa(wv.Lo), strconv.Itoa(wv.Wi), strconv.Itoa(wv.Wn))
 		cmd.Env = append(os.Environ(), "IKESIM_C18_MODE=yield")
 		cmd.Stderr = os.Stderr
 		if err := cmd.Run(); err != nil {
